@@ -4,7 +4,7 @@ import os
 
 from . import common as c
 
-SUPPORT = ["Safe/GoInt.v", "Safe/ErrBounds.v", "Safe/ErrEcho.v", "Safe/ConstsOk.v", "Safe/SizeArith.v", "Safe/Depth.v"]
+SUPPORT = ["Safe/GoInt.v", "Safe/ErrBounds.v", "Safe/ErrEcho.v", "Safe/CompileSize.v", "Safe/ConstsOk.v", "Safe/SizeArith.v", "Safe/Depth.v"]
 
 CLAIM = {
     "gens": ["PureFns", "Consts"],
@@ -258,6 +258,51 @@ def run(ctx):
         ctx.cov["preorder_model_mismatches"] = len(bad)
         tot_pre = len(plines)
     ctx.cov["preorder_distribution"] = pre_dist
+
+    # ---- T1c: program length of nested container types on the real compilers vs the recurrence of Safe/CompileSize.v
+    pl = os.path.join(work, "proglen.txt")
+    rc, out = c.sh([hb, "-mode", "proglen", "-tier", ctx.tier, "-out", pl], env=c.GOENV, timeout=900, check=False)
+    if rc != 0:
+        problems.append(("T", "proglen harness failed: " + out[-600:]))
+    else:
+        lens, times = {}, []
+        for l in open(pl).read().splitlines():
+            f = l.split("\t")
+            if f[0] == "L":
+                lens.setdefault(f[1], {})[int(f[2])] = (int(f[3]), int(f[4]))
+            elif f[0] == "T":
+                times.append(f[1:])
+        expo, detail = [], []
+        for kind, tab in sorted(lens.items()):
+            for side, ix in (("decoder", 0), ("encoder", 1)):
+                seq = [tab[d][ix] for d in sorted(tab)]
+                if min(seq) <= 0:
+                    problems.append(("T", "program dump failed for nested %s (%s)" % (kind, side)))
+                    continue
+                ratios = [seq[d] / seq[d - 1] for d in (6, 7, 8)]          # len(7)/len(6), len(8)/len(7), len(9)/len(8)
+                k = seq[1] - 2 * seq[0]
+                exact = all(seq[i + 1] == 2 * seq[i] + k for i in range(len(seq) - 1))
+                if kind == "ptr":
+                    if max(ratios) > 1.3:
+                        real.append(("nested pointer types no longer compile to linear-size %s programs: %s" % (side, seq), {"mode": "proglen", "kind": kind, "side": side, "lengths": seq}))
+                    continue
+                if min(ratios) >= 1.9:
+                    expo.append("%s/%s" % (side, kind))
+                    detail.append("%s %s: %s%s" % (side, kind, seq[5:9], " = 2*len+%d exactly" % k if exact else ""))
+                    if kind in ("slice", "array", "map") and not exact:
+                        problems.append(("T", "nested %s %s program lengths %s do not follow len(d+1) = 2*len(d) + k (Safe/CompileSize.v)" % (kind, side, seq)))
+        ctx.cov["nested_container_program_lengths"] = {k: {str(d): list(v) for d, v in t.items()} for k, t in lens.items()}
+        if times:
+            ctx.cov["nested_slice_first_use_ms"] = times
+        kf = "KF-C07-nested-container-compile-exponential"
+        if expo:
+            if kf in known:
+                seen_known[kf] = "program length doubles per level for " + ", ".join(expo) + "; " + "; ".join(detail[:3])
+            else:
+                real.append(("compile-time blow-up: program length doubles per nesting level for " + ", ".join(expo),
+                             {"mode": "proglen", "lengths": ctx.cov["nested_container_program_lengths"]}))
+        elif kf in known:
+            problems.append(("T", "recorded finding %s no longer reproduces (no nested container kind doubles its program per level)" % kf))
 
     # ---- T2 / search: every entry point in a child process
     n = 1600 if ctx.tier == "quick" else 40000
